@@ -152,8 +152,18 @@ Lemma calls_are_identity :
   /\ space_multiply_call = (X1, X2, OUT) /\ space_divide_call = (X1, X2, OUT).
 Proof. repeat split; reflexivity. Qed.
 
+(* the array-like fallback of every operator re-dispatches to the SAME operator *)
+Lemma redispatch_id (o : opname) : redispatch o = o.
+Proof. destruct o; reflexivity. Qed.
+
 Section Bridge.
 Context {T : Type} `{Num T}.
+
+Lemma w_data_is_w_elem (flg : nat -> bool * bool) (bdtf : nat -> bool) (icast : T -> T)
+      (sp : space) (o : opname) (self wrapped tmp : elem) :
+  w_data flg bdtf icast sp o self wrapped tmp = w_elem flg bdtf icast sp o self wrapped tmp.
+Proof. unfold w_data, w_elem. rewrite redispatch_id. reflexivity. Qed.
+
 
 Lemma ps_map3p_id (op : leafop) :
   forall (sp : space) (x1 x2 out : elem) (s : store T),
